@@ -109,7 +109,7 @@ def stimuli(tier, seed, ctx):
             cfg['enter'][s_ - 1] = rnd.choice([1, 2, 3])
             cfg['exit'][s_ - 1] = rnd.choice([1, 2, 3])
             cfg['chain'][s_ - 1] = {'on': True, 'goto': rnd.choice([x for x in range(1, nn + 1) if x != s_]),
-                                    'e': 1, 'tag': 8, 'prop': 0, 'double': False}
+                                    'e': 1, 'tag': 8, 'prop': 0, 'double': False, 'always': False, 'cnd': 1}
             cfg['xchain'][s_ - 1] = True
             seq.insert(rnd.randint(0, len(seq)), {'goto': s_, 'e': 0, 'd': {
                 'tag': 4, 'chain': 1, 'cond': 1, 'condf': 1, 'xc': 1}})
